@@ -554,7 +554,139 @@ class OhdrV1(OhdrV2):
         return [1, 0, x["refcount"], name, ms]
 
 
-KINDS = [Dataspace(), Layout(), DatatypeK(), DatatypeVlen(), AttributeK(), SuperblockK(), OhdrV2(), OhdrV1()]
+class LinkK(Kind):
+    name = "link"
+    imports = "Model.CodecMsg Model.CodecLink"
+    uses_sb = True
+    NAMELEN = [0, 1, 2, 254, 255, 256, 257, 1000]
+
+    def gen(self, rng, i):
+        sb = dict(v=2, o=rng.choice([8, 8, 4, 2, 1]), l=8, be=False)
+        ty = rng.choice([0, 0, 1, 64])
+        ls_code = rng.choice([0, 0, 1, 2, 3])
+        flags = ls_code | (0x04 if rng.random() < 0.4 else 0) | (0x10 if rng.random() < 0.5 else 0)
+        if ty != 0 or rng.random() < 0.4:
+            flags |= 0x08
+        flags |= rng.choice([0, 0, 0, 0x20, 0x40, 0x80, 0xE0])       # reserved bits are carried through
+        nl = self.NAMELEN[i] if i < len(self.NAMELEN) else rng.choice([1, 2, 3, 5, 8, 13, 40, rng.randint(0, 64)])
+        if ls_code == 0:
+            nl = min(nl, 255)
+        name = rbytes(rng, nl) if nl < 300 else rbytes(rng, 3, True) + b"a" * (nl - 6) + rbytes(rng, 3)
+        if ty == 0:
+            value = rbytes(rng, sb["o"])
+        elif ty == 1:
+            path = rbytes(rng, rng.choice([0, 1, 5, 20, 255, 256]))
+            value = le(2, len(path)) + path
+        else:
+            f, pth = rbytes(rng, rng.choice([0, 1, 9, 30])), rbytes(rng, rng.choice([0, 1, 7, 40]))
+            value = le(2, len(f)) + f + le(2, len(pth)) + pth
+        return dict(_sb=sb, version=1, flags=flags, type=ty, corder=pick_u64(rng) if flags & 4 else 0,
+                    charset=rng.choice([0, 1, 255]) if flags & 0x10 else 0, name=name.hex(), value=value.hex())
+
+    def invalid(self, rng):
+        ok = self.gen(rng, 100)
+        return [dict(ok, version=0), dict(ok, version=2), dict(ok, flags=0x08, name="61" * 256), dict(ok, flags=0x09, name="61" * 65536)]
+
+    def coq(self, x):
+        return ("{| lk_version := %d; lk_flags := %d; lk_type := %d; lk_corder := %s; lk_charset := %d; lk_name := %s; lk_value := %s |}"
+                % (x["version"], x["flags"], x["type"], cn(x["corder"]), x["charset"], cbytes(x["name"]), cbytes(x["value"])))
+    def enc_expr(self, x):
+        return "enc_link " + self.coq(x)
+    def encok_expr(self, x):
+        return "encok_link " + self.coq(x)
+    def wf_expr(self, x):
+        return "wf_link %d %s" % (x["_sb"]["o"], self.coq(x))
+    def dec_expr(self, hexs, sb):
+        return "oval val_link (dec_link %d %s)" % (sb["o"], cbytes(hexs))
+    def proj(self, x):
+        v = x["value"][4:] if x["type"] == 1 else x["value"]
+        return [1, x["flags"], x["type"], x["corder"], x["charset"], x["name"], v]
+    def shape(self, x):
+        return "type=%d,flags=%02x,name=%d" % (x["type"], x["flags"] & 0x1F, len(x["name"]) // 2)
+
+
+class LinkInfoK(Kind):
+    name = "linkinfo"
+    imports = "Model.CodecMsg Model.CodecLink"
+    uses_sb = True
+
+    def gen(self, rng, i):
+        sb = gen_sb(rng)
+        flags = i % 4
+        return dict(_sb=sb, version=0, flags=flags,
+                    maxcorder=rng.choice([0, 1, (1 << 63) - 1, rng.getrandbits(62)]) if flags & 1 else 0,
+                    heap=pick_uk(rng, sb["o"]), btname=pick_uk(rng, sb["o"]), btorder=pick_uk(rng, sb["o"]) if flags & 2 else 0)
+
+    def invalid(self, rng):
+        return [dict(self.gen(rng, 0), version=1), dict(self.gen(rng, 3), version=255)]
+
+    def coq(self, x):
+        return "{| li_version := %d; li_flags := %d; li_maxcorder := %s; li_heap := %s; li_btname := %s; li_btorder := %s |}" % (
+            x["version"], x["flags"], cn(x["maxcorder"]), cn(x["heap"]), cn(x["btname"]), cn(x["btorder"]))
+    def enc_expr(self, x):
+        return "enc_linkinfo %s %s" % (csb(x["_sb"]), self.coq(x))
+    def encok_expr(self, x):
+        return "encok_linkinfo " + self.coq(x)
+    def wf_expr(self, x):
+        return "wf_linkinfo %s %s" % (csb(x["_sb"]), self.coq(x))
+    def dec_expr(self, hexs, sb):
+        return "oval val_linkinfo (dec_linkinfo %s %s)" % (csb(sb), cbytes(hexs))
+    def proj(self, x):
+        return [0, x["flags"], x["maxcorder"], x["heap"], x["btname"], x["btorder"]]
+    def shape(self, x):
+        return "flags=%d,o=%d,be=%d" % (x["flags"], x["_sb"]["o"], x["_sb"]["be"])
+
+
+class AttrInfoK(Kind):
+    name = "attrinfo"
+    imports = "Model.CodecMsg Model.CodecLink"
+    uses_sb = True
+
+    def gen(self, rng, i):
+        sb = dict(gen_sb(rng), be=False)
+        flags = (i % 4) | rng.choice([0, 0, 4, 0x80, 0xFC])
+        return dict(_sb=sb, version=rng.choice([0, 0, 1, 255]), flags=flags, heap=pick_uk(rng, sb["o"]), btname=pick_uk(rng, sb["o"]),
+                    maxcidx=rng.choice([0, 1, 255, 256, 65535]) if flags & 1 else 0,
+                    btorder=pick_uk(rng, sb["o"]) if flags & 2 else 0)
+
+    def coq(self, x):
+        return "{| ai_version := %d; ai_flags := %d; ai_heap := %s; ai_btname := %s; ai_maxcidx := %s; ai_btorder := %s |}" % (
+            x["version"], x["flags"], cn(x["heap"]), cn(x["btname"]), cn(x["maxcidx"]), cn(x["btorder"]))
+    def enc_expr(self, x):
+        return "enc_attrinfo %s %s" % (csb(x["_sb"]), self.coq(x))
+    def wf_expr(self, x):
+        return "wf_attrinfo %s %s" % (csb(x["_sb"]), self.coq(x))
+    def dec_expr(self, hexs, sb):
+        return "oval val_attrinfo (dec_attrinfo %s %s)" % (csb(sb), cbytes(hexs))
+    def proj(self, x):
+        return [x["version"], x["flags"], x["heap"], x["btname"], x["maxcidx"], x["btorder"]]
+    def shape(self, x):
+        return "flags=%d,o=%d" % (x["flags"] & 3, x["_sb"]["o"])
+
+
+class SymtabK(Kind):
+    name = "symtab"
+    imports = "Model.CodecMsg Model.CodecLink"
+    uses_sb = True
+
+    def gen(self, rng, i):
+        return dict(_sb=dict(v=0, o=8, l=8, be=False), btree=pick_u64(rng), heap=pick_u64(rng))
+    def coq(self, x):
+        return "{| st_btree := %s; st_heap := %s |}" % (cn(x["btree"]), cn(x["heap"]))
+    def enc_expr(self, x):
+        return "enc_symtab %d %s" % (x["_sb"]["o"], self.coq(x))
+    def wf_expr(self, x):
+        return "wf_symtab " + self.coq(x)
+    def dec_expr(self, hexs, sb):
+        return "oval val_symtab (dec_symtab %s %s)" % (csbe(sb), cbytes(hexs))
+    def proj(self, x):
+        return [x["btree"], x["heap"]]
+    def shape(self, x):
+        return "o=%d" % x["_sb"]["o"]
+
+
+KINDS = [Dataspace(), Layout(), DatatypeK(), DatatypeVlen(), AttributeK(), SuperblockK(), OhdrV2(), OhdrV1(),
+         LinkK(), LinkInfoK(), AttrInfoK(), SymtabK()]
 
 # kinds whose encoder/decoder pair is known not to round-trip: id of the KNOWN_FINDINGS entry
 KNOWN_ROUNDTRIP = {"datatype_vlen": "C11-vlen-datatype-header", "ohdr_v1": "C11-ohdr-v1-size-field"}
